@@ -271,7 +271,7 @@ def check(ctx):
     okm = len(keep) == 1 and F.implies(F.bind_atoms(keep[0].formula(msub), {"LAST": LAST})[0], F.parse("!LAST"))
     ctx.ob("forget/else-complete", "LADDER", "otherwise the announcement is marked COMPLETED through ChangeAndReselect (which re-selects the next best candidate)", okm, mc.where)
     io = fns["IsOnlyNonCompleted"]
-    rets = [e for e in exits(io, P) if e.kind == "ret"]
+    rets = [e for e in exits(io, P, naming(io, P)) if e.kind == "ret"]
     tr = [e for e in rets if is_true_ret(e)]
     okt = False
     det = None
@@ -325,7 +325,13 @@ def check(ctx):
     ctx.ob("inv/no-duplicate", "MPT", "ReceivedInv inserts a new announcement (for this peer and request time) only if no CANDIDATE_BEST announcement exists for (peer, txhash); other "
            "duplicates are rejected by the unique by-peer index", okE, ri.where)
     cnt = sites(ri, lambda e: e[0] == "u" and e[1] in ("++", "post++") and contains([".", ANY, "TxRequestTracker::Impl::m_peerinfo"], e), P)
-    okC = len(cnt) == 1 and any(re.fullmatch(r"\w+\.second", k) for k in F.atoms(cnt[0].formula(None))) and F.implies(cnt[0].formula(None), F.atom("ret.second")) if cnt else False
+    risub = naming(ri, P)
+    emp = [st.get("n") for st in stmts(ri.body) if st.get("k") == "decl" and st.get("n") and is_expr(st.get("i")) and "emplace(" in show(st["i"])]
+    INS = re.compile(r"(bind1\(.*emplace\(.*\)\)|.*emplace\(.*\)\.second%s)" % "".join("|%s\\.second" % re.escape(n_) for n_ in emp))
+    okC = False
+    if len(cnt) == 1:
+        fbC, mpC, unC = F.bind_atoms(cnt[0].formula(risub), {"INSERTED": INS})
+        okC = "INSERTED" in mpC.values() and F.implies(fbC, F.parse("INSERTED"))
     ctx.ob("inv/count-if-inserted", "MPT", "the peer's announcement count is increased only if the insertion took place", bool(okC), ri.where)
     ctor = P.fn("Announcement::Announcement")
     inits = [show(x) for x in (ctor.d.get("inits") or [])] if ctor is not None else []
